@@ -10,6 +10,7 @@ import (
 	"net/http"
 	"net/http/httputil"
 	"net/url"
+	"strconv"
 	"sync"
 	"sync/atomic"
 	"time"
@@ -445,6 +446,12 @@ func (lb *LoadBalancer) AddBackend(backendCfg config.BackendConfig) error {
 	// http(s) URL with a host can be proxied to
 	if (backendURL.Scheme != "http" && backendURL.Scheme != "https") || backendURL.Host == "" {
 		return fmt.Errorf("backend %q: address %q must be an absolute http(s) URL", backendCfg.Name, backendCfg.Address)
+	}
+	// url.Parse takes any digits for a port; one that no listener can have makes every dial fail
+	if port := backendURL.Port(); port != "" {
+		if n, err := strconv.Atoi(port); err != nil || n < 1 || n > 65535 {
+			return fmt.Errorf("backend %q: address %q has a port outside 1-65535", backendCfg.Name, backendCfg.Address)
+		}
 	}
 
 	// Backend names identify backends (removal, health counters, metrics): they must be unique
